@@ -293,10 +293,11 @@ func (vc *FuncVC) havoc(st *State, mods []modLoc, allocGrows bool) {
 		old := vc.cur(st, "alloc")
 		nv := vc.newVersion(st, "alloc")
 		r := vc.boundVar("r", SRef)
-		vc.emit("(assert %s)", Forall([]Term{r}, Implies(Select(old, r, SBool), Select(nv, r, SBool)), Select(old, r, SBool)).S)
+		vc.emit("(assert %s)", ForallAlt([]Term{r}, Implies(Select(old, r, SBool), Select(nv, r, SBool)), Select(old, r, SBool), Select(nv, r, SBool)).S)
 		vc.emit("(assert (not (select %s null)))", nv.S)
 	}
 	if len(mods) == 0 {
+		vc.flushClosed()
 		return
 	}
 	anyMod, objMod := false, false
@@ -351,6 +352,7 @@ func (vc *FuncVC) havoc(st *State, mods []modLoc, allocGrows bool) {
 			vc.emit("(assert %s)", Forall([]Term{r}, Implies(Not(vc.modPred(mapMods, r)), Eq(Select(nv, r, es), Select(old, r, es))), Select(nv, r, es)).S)
 		}
 	}
+	vc.flushClosed()
 }
 
 func (vc *FuncVC) elemLeafHeaps(es Sort) []Sort {
